@@ -188,7 +188,7 @@ def _native_ns():
     ns["avp_class_ok"] = lambda t: isinstance(t, type) and issubclass(t, avp.Avp)
     # real classes by name
     for modname in ("diameter.message.avp.avp", "diameter.message.packer", "diameter.message._base",
-                    "diameter.message.avp.errors", "diameter.node._helpers"):
+                    "diameter.message.avp.errors", "diameter.node._helpers", "diameter.message.commands"):
         try:
             m = importlib.import_module(modname)
         except Exception:
@@ -536,6 +536,14 @@ FLOAT_POOL = [0.0, 1.0, -1.0, 0.5, 1e10, -1e10, 3.4e38, 3.5e38, 1e308, float("in
 LEN_POOL = [0, 0, 1, 2, 3, 4, 4, 5, 6, 7, 8, 8, 9, 12, 16, 18, 20, 24, 28]
 
 
+def _hashable(v):
+    try:
+        hash(v)
+        return v
+    except TypeError:
+        raise NoReplay("unhashable dictionary key")
+
+
 def _rand_build(kind, rnd, ns, depth=0):
     """a random native value of a contract kind (cross-check); NoReplay for kinds without a native constructor"""
     import io
@@ -569,7 +577,24 @@ def _rand_build(kind, rnd, ns, depth=0):
         if depth > 2:
             return []
         return [_rand_build(kind[5:-1], rnd, ns, depth + 1) for _ in range(rnd.choice([0, 0, 1, 2]))]
-    if kind == "Any" or kind.startswith(("Tuple[", "Dict[", "Seq[", "Set[", "Deque[", "Any:")):
+    if kind.startswith("Dict["):
+        inner = kind[5:-1]
+        lvl = 0
+        cut = None
+        for i, ch in enumerate(inner):
+            lvl += ch == "["
+            lvl -= ch == "]"
+            if ch == "," and lvl == 0:
+                cut = i
+                break
+        if cut is None or depth > 2 or rnd.random() < 0.6:
+            return {}
+        return {_hashable(_rand_build(inner[:cut].strip(), rnd, ns, depth + 1)): _rand_build(inner[cut + 1:].strip(), rnd, ns, depth + 1)
+                for _ in range(rnd.choice([1, 2]))}
+    if kind == "Any":
+        # an opaque value: the proof holds for every value
+        return rnd.choice([None, 0, 1, -1, b"", b"ab", "", "x", 1.5, True])
+    if kind.startswith(("Tuple[", "Seq[", "Set[", "Deque[", "Any:")):
         raise NoReplay(f"no random constructor for kind {kind}")
     if kind == "BytesIO":
         o = io.BytesIO()
